@@ -83,6 +83,20 @@ theorem where_keeps_iff (fo : FOps) (env : Env) (op : CmpOp) (l r : Expr) (lv rv
   refine ⟨h, ?_⟩
   rw [h]; cases mathCmp op x y <;> rfl
 
+/-- The `.pattern` context on whole lambda bodies (`eval_pattern_expr`, model `evalPat`): if the two
+sides evaluate to numbers, the comparison is the mathematical one (outside the known gap). -/
+theorem pattern_expr_cmp_correct (fo : FOps) (vars : List (String × Value)) (op : CmpOp) (l r : Expr)
+    (lv rv : Value) (x y : Ext)
+    (hl : evalPat fo .fixed vars l = .val lv) (hr : evalPat fo .fixed vars r = .val rv)
+    (hx : numExt lv = some x) (hy : numExt rv = some y) (hgap : patternGap .pattern op lv rv = false) :
+    evalPat fo .fixed vars (.bin op.toBinOp l r) = .val (.bool (mathCmp op x y)) := by
+  cases op <;>
+    first
+    | (simp [evalPat, hl, hr, Res.bind, CmpOp.toBinOp, patternBinop, mathCmp, cmpVals_fixed _ lv rv x y hx hy]; done)
+    | (simp [patternGap] at hgap
+       simp [evalPat, hl, hr, Res.bind, CmpOp.toBinOp, patternBinop, mathCmp,
+         cmpValsSameKind_exact _ lv rv x y hx hy hgap])
+
 /-- The order used is a genuine order on the denoted numbers: reflexive-equal, antisymmetric,
 so `>`/`<` and `>=`/`<=` are mirror images. -/
 theorem cmp_swap (fo : FOps) (ctx : Ctx) (hctx : ctx ≠ .pattern) (l r : Value) (x y : Ext)
